@@ -1,8 +1,8 @@
 CONSTANTS Keys = {"a", "b"}
-          NHol = 4
-          NWk = 3
+          NHol = 3
+          NWk = 2
           Rich = TRUE
-          MaxObj = 4
+          MaxObj = 6
           Depth = 8
           KeepHist = TRUE
 INIT Init
